@@ -36,6 +36,13 @@ def run(tier, seed):
     res2 = vlib.run_vh_sharded(['xfer-faults', '-tree', 'empty', '-seed', str(seed), '-stride', str(stride), '-budget', budget, '-trace-out', tp2], shards, timeout=3000)
     for viol in res['violations'] + res2['violations']:
         v.violation(viol['sig'], viol.get('replay'))
+    # the dumb (benchmark) transfer modes: a stream that ends before the announced size must not be reported as received
+    ed = os.path.join(work, "dumb.ndjson")
+    vlib.run_tlc('DumbWire', dict(constants={}, action_constraint='Emit'), workers=2, edges_path=ed, timeout=300)
+    dw = vlib.run_vh_sharded(['dumb-wire', '-edges', ed], 8, timeout=1200)
+    for viol in dw['violations']:
+        if viol['sig'].get('kind') == 'incomplete_record_accepted':
+            v.violation(dict(kind='receiver_reports_success_for_a_truncated_stream', mode='dumb', cut=viol['sig'].get('cut'), via=viol['sig'].get('via')), viol.get('replay'))
     # the hook traces of the faulted transfers, validated with TLC against SessionTrace.tla
     # (e.g. C02.finalize_ok_short: no file is finalized ok without every chunk written)
     lines = e2e_common.collect(tp) + e2e_common.collect(tp2)
@@ -47,6 +54,7 @@ def run(tier, seed):
                       samples=res['samples'][:8], exhaustive=(stride == 1), hook_traces_validated_by_tlc=tstats,
                       transfers_not_traced=res['extra'].get('transfers_not_traced'),
                       by_kind=res['extra'].get('by_kind'), outcomes=res['extra'].get('outcomes'),
+                      dumb_mode_streams=dict(runs=dw['behaviours'], outcomes=dw['extra'].get('outcomes')),
                       empty_files_tree=dict(runs=res2['behaviours'], by_kind=res2['extra'].get('by_kind'), outcomes=res2['extra'].get('outcomes')),
                       skipped_over_budget=res['extra'].get('skipped_over_budget'),
                       tlc=dict(states=mc['states'], transitions=mc['transitions'], runs=mc['runs'], negative_controls_refuted=neg))
